@@ -223,6 +223,33 @@ def compare_terms(t2, j):
     return same_ref, ref.show(r2)
 
 
+def parsed_binder_names(t):
+    """Binder names of a holpy term in pre-order (fun before arg), read from its public fields."""
+    out = []
+    stack = [t]
+    while stack:
+        s = stack.pop()
+        if s.is_comb():
+            stack.append(s.arg)
+            stack.append(s.fun)
+        elif s.is_abs():
+            out.append(s.var_name)
+            stack.append(s.body)
+    return out
+
+
+def names_look_foreign(j, parsed):
+    """Cheap in-process screen for history dependence: every bound name shown in the text must be the term's own
+    suggested name or a numbered variant of it.  A hit is only a reason to ask the fresh process."""
+    own = L.binder_names(j)
+    if parsed is None or len(own) != len(parsed):
+        return False
+    for a, b in zip(own, parsed):
+        if not (b == a or (b.startswith(a) and b[len(a):].isdigit())):
+            return True
+    return False
+
+
 def _quiet():
     return contextlib.redirect_stdout(io.StringIO())
 
@@ -269,7 +296,7 @@ def roundtrip_term(thname, j, uni, hl, ll, t=None):
     if same_holpy is not True:
         return {'status': 'holpy-eq-disagrees', 'text': text,
                 'detail': 'printed %r; reference says alpha-equal, holpy == says %r' % (text, same_holpy)}
-    return {'status': 'ok', 'text': text, 'detail': ''}
+    return {'status': 'ok', 'text': text, 'detail': '', 'parsed_binders': parsed_binder_names(t2)}
 
 
 # ---- root causes: (name, predicate on the minimal failing subterm (JSON), text) -> feature.  Filled in after triage so
@@ -500,6 +527,7 @@ def term_classes(j, text):
 
 _worker_starts = {}
 MAX_WORKER_STARTS = 2
+MAX_SCREEN_CONFIRMATIONS = 4
 
 
 def get_worker(thname):
@@ -640,13 +668,21 @@ def check_term(case, H):
             feat = term_feature(thname, j, uni, hl, ll, status)
         H.violation(term_signature(status, r, feat), case, r['detail'])
         kl.append('!term:' + status)
-    if case.get('fresh') and r.get('text') is not None:
+    suspicious = bool(ran) and status == 'ok' and names_look_foreign(j, r.get('parsed_binders'))
+    if suspicious:
+        kl.append('hist:screen-flags-foreign-bound-names')
+    if (case.get('fresh') or suspicious) and r.get('text') is not None:
         req = {'t': j, 'unicode': uni, 'highlight': hl, 'line_length': ll}
         deferred = getattr(H, 'c07_deferred', None)
         if deferred is not None:
-            # exploration: the fresh-process prints of a whole shard are requested together (they run concurrently)
-            deferred.append((case, req, r['text'], status))
-            kl.append('hist:compared-with-fresh-process')
+            # exploration: the fresh-process prints of a whole shard are requested together (they run concurrently);
+            # screen hits beyond a small budget are only counted
+            nscreen = sum(1 for d in deferred if d[4])
+            if case.get('fresh') or nscreen < MAX_SCREEN_CONFIRMATIONS:
+                deferred.append((case, req, r['text'], status, not case.get('fresh')))
+                kl.append('hist:compared-with-fresh-process')
+            else:
+                H.note('hist-screen-hit-not-sent-to-fresh-process')
         else:
             try:
                 ans = get_worker(thname).ask(req)
@@ -1173,7 +1209,7 @@ def run_case(case, H):
     if not isinstance(case, dict):
         raise CaseInvalid('case')
     k = case.get('kind')
-    if k == 'term' and (case.get('fresh') or case.get('prefix')) and case.get('theory') in _S:
+    if k == 'term' and case.get('fresh') and case.get('theory') in _S:
         ensure_worker(case['theory'])      # outside the time limit: start-up takes seconds
     try:
         with time_limit(60):
@@ -1451,7 +1487,7 @@ def hist_strategy(thname):
             else:
                 prefix.append({'op': 'print', 't': draw(rand_term(thname, max_fuel=2)), 'theory': thname, 'unicode': puni})
         return {'kind': 'term', 'theory': thname, 't': j, 'unicode': uni, 'highlight': hl, 'line_length': ll,
-                'prefix': prefix, 'fresh': draw(st.sampled_from([True, False, False]))}
+                'prefix': prefix, 'fresh': draw(st.sampled_from([True] + [False] * 11))}
     return s()
 
 
@@ -1510,7 +1546,7 @@ def shards(tier):
             out.append({'kind': kind, 'n': c, 'i': i})
     # (d) history
     for th in THEORIES:
-        out.append({'kind': 'hist', 'theory': th, 'n': (150 if quick else 1500), 'i': 0})
+        out.append({'kind': 'hist', 'theory': th, 'n': (100 if quick else 1500), 'i': 0})
     return out
 
 
@@ -1594,7 +1630,7 @@ def run_shard(desc, seed, tier, H):
                     for _ in pending:
                         H.inconc('fresh-worker-failed')
                 if answers is not None:
-                    for (case, req, text, status), ans in zip(pending, answers):
+                    for (case, req, text, status, _), ans in zip(pending, answers):
                         if compare_with_fresh(case, text, status, ans, H):
                             H.classes['!hist:text-differs'] += 1
         finally:
